@@ -70,11 +70,58 @@ format_mif = safe_fmt("format_mif")
 format_c_array = safe_fmt("format_c_array", [C("radix_supported", "radix == 10 || radix == 16", ["C03"])])
 format_separator = safe_fmt("format_separator", [C("radix_supported", "radix == 10 || radix == 16", ["C03"])])
 
+DCONST = "self.wf() && 1 <= digit_bits <= 4 && 1 <= byte_bits <= 64 && 1 <= bytes_per_line <= 1024 && self.len + 0x40000 <= usize::MAX"
+DARGS = "self.v(), self.len as int, digit_bits as int, byte_bits as int, bytes_per_line as int"
+format_dump = Fn(F, "format_dump", impl="util::BitVec", impl_header="BitVec", slot="util", ret="res", key="BitVec::format_dump", props=["C11", "C03", "C19"],
+    requires=[C("wf", "self.wf()"), C("digit_width", "1 <= digit_bits <= 4", ["C03"]), C("byte_width", "1 <= byte_bits <= 64", ["C03"]),
+              C("line_width", "1 <= bytes_per_line <= 1024", ["C03"]), C("len_fits", "self.len + 0x40000 <= usize::MAX", ["C19"])],
+    ensures=[C("text_is_the_dump_of_the_bits", "res@ == dump_text(%s)" % DARGS, ["C11"])],
+    rewrites=[
+        Rewrite('format!("{:x}", (line_end - 1) * bytes_per_line).len()', "verif_hex_text_len((line_end - 1) * bytes_per_line)", rule="R22", why="format! -> wrapper whose text is an uninterpreted function of the arguments"),
+        Rewrite('format!(" {:01$x} | ", line_index * bytes_per_line, addr_max_width)', "verif_dump_addr(line_index * bytes_per_line, addr_max_width)", rule="R22", why="format! -> wrapper whose text is an uninterpreted function of the arguments"),
+    ],
+    for_to_while=[3, 5],
+    loops={
+        1: Loop(invariant=[C("consts", DCONST + " && line_start == 0 && line_end == dump_line_count(self.len as int, byte_bits as int, bytes_per_line as int) && addr_max_width == hex_text_len((line_end - 1) * bytes_per_line)"),
+                           C("lines_so_far", "result@ =~= dump_lines(%s, addr_max_width as int, line_index as int)" % DARGS)],
+                body_start=" let ghost base1 = result@; proof { lemma_dump_pos(self.len as int, byte_bits as int, bytes_per_line as int, digit_bits as int, line_index as int, 0, 0); reveal_strlit(\"| \"); reveal_strlit(\" |\"); }"),
+        2: Loop(invariant=[C("consts", DCONST + " && line_index < line_end && line_end == dump_line_count(self.len as int, byte_bits as int, bytes_per_line as int)"),
+                           C("bytes_so_far", "result@ =~= base1 + dump_addr_text(line_index * bytes_per_line, addr_max_width as int) + dump_line_bytes(%s, byte_index as int)" % DARGS.replace("self.len as int,", "self.len as int, line_index as int,"))],
+                body_start=" let ghost base2 = result@; proof { lemma_dump_pos(self.len as int, byte_bits as int, bytes_per_line as int, digit_bits as int, line_index as int, byte_index as int, 0); }"),
+        3: Loop(invariant=[C("consts", DCONST + " && line_index < line_end && byte_index < bytes_per_line && verif_hi_3 == byte_bits / digit_bits && verif_next_3 <= verif_hi_3 && line_end == dump_line_count(self.len as int, byte_bits as int, bytes_per_line as int)"),
+                           C("digits_so_far", "result@ =~= base2 + dump_byte_digits(self.v(), self.len as int, line_index * bytes_per_line + byte_index, digit_bits as int, byte_bits as int, verif_next_3 as int)")],
+                decreases="verif_hi_3 - verif_next_3",
+                body_start=" proof { lemma_dump_pos(self.len as int, byte_bits as int, bytes_per_line as int, digit_bits as int, line_index as int, byte_index as int, verif_next_3 as int); }"),
+        4: Loop(invariant=[C("bits", DCONST + " && digit_first_bit < self.len && digit as int == acc(self.v(), digit_first_bit as int, bit_index as int)")],
+                body_start=" proof { lemma_acc_bound(self.v(), digit_first_bit as int, bit_index as int); vstd::arithmetic::power2::lemma2_to64(); if bit_index < 4 { vstd::arithmetic::power2::lemma_pow2_strictly_increases(bit_index as nat, 4); } let ghost b0: u8 = if bit_of(self.v(), (digit_first_bit + bit_index) as nat) { 1 } else { 0 }; lemma_shift_or(digit, b0); }"),
+        5: Loop(invariant=[C("consts", DCONST + " && byte_bits == 8 && line_index < line_end && verif_hi_5 == bytes_per_line && verif_next_5 <= verif_hi_5 && line_end == dump_line_count(self.len as int, byte_bits as int, bytes_per_line as int)"),
+                           C("chars_so_far", "result@ =~= base5 + dump_ascii(self.v(), self.len as int, line_index as int, bytes_per_line as int, verif_next_5 as int)")],
+                before=" let ghost base5 = result@;",
+                decreases="verif_hi_5 - verif_next_5",
+                body_start=" proof { lemma_dump_pos(self.len as int, byte_bits as int, bytes_per_line as int, digit_bits as int, line_index as int, verif_next_5 as int, 0); }"),
+        6: Loop(invariant=[C("bits", DCONST + " && byte_bits == 8 && byte_first_bit < self.len && byte as int == acc(self.v(), byte_first_bit as int, bit_index as int)")],
+                body_start=" proof { lemma_acc_bound(self.v(), byte_first_bit as int, bit_index as int); vstd::arithmetic::power2::lemma2_to64(); if bit_index < 8 { vstd::arithmetic::power2::lemma_pow2_strictly_increases(bit_index as nat, 8); } if bit_index < 7 { vstd::arithmetic::power2::lemma_pow2_strictly_increases(bit_index as nat, 7); } let ghost b0: u8 = if bit_of(self.v(), (byte_first_bit + bit_index) as nat) { 1 } else { 0 }; lemma_shift_or(byte, b0); }"),
+    },
+    inserts=[
+        Insert("        let line_start = 0 /", "        proof { lemma_dump_bounds(self.len as int, byte_bits as int, bytes_per_line as int); }\n", where="before"),
+        Insert("        let addr_max_width =", "        proof { assert(0 <= (line_end - 1) * bytes_per_line <= line_end * bytes_per_line) by (nonlinear_arith) requires line_end >= 1, bytes_per_line >= 1; }\n", where="before"),
+        Insert("                    let c = if digit < 10", "                    proof { lemma_acc_bound(self.v(), digit_first_bit as int, digit_bits as int); vstd::arithmetic::power2::lemma2_to64(); if digit_bits < 4 { vstd::arithmetic::power2::lemma_pow2_strictly_increases(digit_bits as nat, 4); } }\n", where="before"),
+        Insert("                    let c = byte as char;", "                    proof { lemma_acc_bound(self.v(), byte_first_bit as int, 8); vstd::arithmetic::power2::lemma2_to64(); }\n", where="before"),
+    ],
+)
+
+format_bindump = Fn(F, "format_bindump", impl="util::BitVec", impl_header="BitVec", slot="util", ret="res", key="BitVec::format_bindump", props=["C11"],
+    requires=[C("wf", "self.wf()"), C("len_fits", "self.len + 0x40000 <= usize::MAX", ["C19"])],
+    ensures=[C("one_bit_per_digit_eight_bytes_per_line", "res@ == dump_text(self.v(), self.len as int, 1, 8, 8)", ["C11"])])
+format_hexdump = Fn(F, "format_hexdump", impl="util::BitVec", impl_header="BitVec", slot="util", ret="res", key="BitVec::format_hexdump", props=["C11"],
+    requires=[C("wf", "self.wf()"), C("len_fits", "self.len + 0x40000 <= usize::MAX", ["C19"])],
+    ensures=[C("four_bits_per_digit_sixteen_bytes_per_line", "res@ == dump_text(self.v(), self.len as int, 4, 8, 16)", ["C11"])])
+
 UNIT = Unit(
     "U-format", "u_format/skeleton.rs",
     items=cb.items("stub", "util", only=["set_bit", "get_bit"]) + bv.items("stub", "util", only=["read_bit", "len"]) + [
-        format_binary, format_str, format_binstr, format_hexstr, format_mif, format_c_array, format_separator,
+        format_binary, format_str, format_binstr, format_hexstr, format_mif, format_c_array, format_separator, format_dump, format_bindump, format_hexdump,
     ],
     serves=["C11", "C03", "C19"],
-    description="util::BitVec formatters with a functional contract: raw binary, bit string, hex string",
+    description="util::BitVec formatters with a functional contract: raw binary, bit string, hex string, bit and hex dumps",
 )
